@@ -123,8 +123,24 @@ Definition model (d : Z) (aux i1 i2 : list Z) : res (list Z) :=
   else if d =? D_LOCAL_FILES then run (local_files (Z.odd (aux_at aux 0)) (Z.odd (Z.shiftr (aux_at aux 0) 1)) i1) i1
   else RFuel.
 
+(** hashes of a [CReplay] case: computed by the harness with Go crypto ((alg, message) -> digest);
+    a missing entry yields [[-1]], which is not a byte string, so the comparison with the bytes the
+    implementation returned fails *)
+Definition hash_table := list (Z * list Z * list Z).
+Fixpoint tbl_hash (t : hash_table) (a : Z) (m : list Z) : list Z :=
+  match t with
+  | [] => [-1]
+  | (a', m', d) :: t' => if (a =? a') && zlist_eqb m m' then d else tbl_hash t' a m
+  end.
+(** an event of a parsed log as the harness writes it: [dg] = (algorithm, digest bytes) or nil *)
+Definition ev (p t : Z) (data : list Z) (dg : option (Z * list Z)) : EventLog.event :=
+  EventLog.mkEv p t data (match dg with Some (a, b) => Some (EventLog.mkDg a b) | None => None end).
+
 Inductive case : Type :=
 | CDec (d : Z) (aux i1 i2 : list Z) (o : dobs) (obs_alloc : Z)
+(** tpmeventlog.Replay(log, p, a, logOut) with [wk] = 0: logOut == nil, 1: a writer, 2: a writer whose
+    Write returns an error; [o] = what the call did (DOk = the returned digest) *)
+| CReplay (wk : Z) (tbl : hash_table) (log : list EventLog.event) (p a : Z) (o : dobs)
 (** the PEM block loop of parsePrivateKey ([who] = 0, reached through
     DecryptPrivKey) / ReadPubKey ([who] = 1) on a file of [n] bytes: [t] = the
     calls of encoding/pem.Decode the harness made on the same bytes (length of
@@ -183,6 +199,13 @@ Definition check (c : case) : bool :=
   | CDec d aux i1 i2 o oa =>
       let r := model d aux i1 i2 in
       class_match d o r && alloc_match o oa (lenZ i1 + lenZ i2) r
+  | CReplay wk tbl log p a o =>
+      match replay_out (tbl_hash tbl) (writer_of wk) log p a, o with
+      | Ok v, DOk s => zlist_eqb v s
+      | Err _, DErr => true
+      | Panic, DPanic => true
+      | _, _ => false
+      end
   | CPem who n t keys code =>
       (* every observed pem.Decode call meets the contract, the loop leaves where the code left, and with
          the block the code handed to the x509 parsers *)
